@@ -84,6 +84,7 @@ class Engine:
 
     def __init__(self, timeout_ms=20000, seed=0):
         self.solver = z3.Solver()
+        self.timeout_ms = timeout_ms
         self.solver.set("timeout", timeout_ms)
         self.solver.set("random_seed", seed)
         self.prefix = []
@@ -105,7 +106,9 @@ class Engine:
     def check(self, *extra):
         t = time.time()
         self.queries += 1
-        r = self.solver.check(*extra)
+        r = z3.unknown
+        with watchdog(self.timeout_ms):
+            r = self.solver.check(*extra)
         self.solver_time += time.time() - t
         if r == z3.unknown:
             self.unknowns += 1
@@ -715,6 +718,32 @@ class Verdict:
         )
 
 
+class watchdog:
+    """z3's own timeout is soft (big-number arithmetic inside nlsat is not interruptible by it): a timer thread
+    interrupts the context if a call overruns its budget; the call then reports `unknown`."""
+
+    def __init__(self, timeout_ms):
+        import threading
+
+        self.t = threading.Timer(timeout_ms / 1000.0 * 1.5 + 2.0, self._fire)
+        self.fired = False
+
+    def _fire(self):
+        self.fired = True
+        z3.main_ctx().interrupt()
+
+    def __enter__(self):
+        self.t.daemon = True
+        self.t.start()
+        return self
+
+    def __exit__(self, et, ev, tb):
+        self.t.cancel()
+        if et is not None and issubclass(et, z3.Z3Exception) and self.fired:
+            return True  # swallowed: caller sees the default result
+        return False
+
+
 def _solve(assertions, timeout_ms, tactic=None):
     if tactic:
         s = z3.Then(z3.Tactic("simplify"), z3.Tactic(tactic)).solver()
@@ -723,9 +752,11 @@ def _solve(assertions, timeout_ms, tactic=None):
     s.set("timeout", timeout_ms)
     s.add(*assertions)
     t = time.time()
-    r = s.check()
+    r, m = z3.unknown, None
+    with watchdog(timeout_ms):
+        r = s.check()
+        m = s.model() if r == z3.sat else None
     dt = time.time() - t
-    m = s.model() if r == z3.sat else None
     return r, m, dt
 
 
